@@ -95,74 +95,99 @@ func runC20(c *Ctx) {
 	// a marker counts as un-positional ('?', one more placeholder) only when its position group is empty: the
 	// single-placeholder append outside the positional fill is dominated by the capture == "" edge. (Steering on the
 	// conversion error instead also diverts positions that overflow int.)
-	var emptyEdges []edge
-	for _, b := range pp.Blocks {
-		for _, in := range b.Instrs {
-			cmp, ok := in.(*ssa.BinOp)
-			if !ok || (cmp.Op != token.EQL && cmp.Op != token.NEQ) {
-				continue
-			}
-			isEmpty := false
-			var tested ssa.Value
-			for _, pair := range [][2]ssa.Value{{cmp.X, cmp.Y}, {cmp.Y, cmp.X}} {
-				if sv, ok := core.ConstString(pair[1]); ok && sv == "" {
-					isEmpty, tested = true, pair[0]
-				}
-				if k, ok := core.ConstInt(pair[1]); ok && k == 0 {
-					if x, ok := core.IsLenOf(pair[0]); ok {
-						if bt, ok := x.Type().Underlying().(*types.Basic); ok && bt.Info()&types.IsString != 0 {
-							isEmpty, tested = true, x
-						}
+	nSingle := 0
+	for _, host := range ppFns {
+		// loop depth at which the host's body runs: 0 for ParseParameters, the depth of the call for a helper of its loop
+		baseDepth := 0
+		var hostSite ssa.CallInstruction
+		if host != pp {
+			for _, ci := range callsIn(pp, calleeIs(host)) {
+				hostSite = ci
+				for _, l := range core.Loops(pp) {
+					if l.Body[ci.Block()] {
+						baseDepth++
 					}
 				}
 			}
-			if !isEmpty || tested == nil {
+			if hostSite == nil {
 				continue
 			}
-			// the tested string is an element of the match (the capture group)
-			if _, p := pathOf(tested); !strings.Contains(p, "[]") {
-				continue
-			}
-			idx := 0
-			if cmp.Op == token.NEQ {
-				idx = 1
-			}
-			for _, u := range core.Referrers(cmp) {
-				if iff, ok := u.(*ssa.If); ok {
-					emptyEdges = append(emptyEdges, edge{iff.Block(), idx})
+		}
+		var emptyEdges []edge
+		for _, b := range host.Blocks {
+			for _, in := range b.Instrs {
+				cmp, ok := in.(*ssa.BinOp)
+				if !ok || (cmp.Op != token.EQL && cmp.Op != token.NEQ) {
+					continue
+				}
+				isEmpty := false
+				var tested ssa.Value
+				for _, pair := range [][2]ssa.Value{{cmp.X, cmp.Y}, {cmp.Y, cmp.X}} {
+					if sv, ok := core.ConstString(pair[1]); ok && sv == "" {
+						isEmpty, tested = true, pair[0]
+					}
+					if k, ok := core.ConstInt(pair[1]); ok && k == 0 {
+						if x, ok := core.IsLenOf(pair[0]); ok {
+							if bt, ok := x.Type().Underlying().(*types.Basic); ok && bt.Info()&types.IsString != 0 {
+								isEmpty, tested = true, x
+							}
+						}
+					}
+				}
+				if !isEmpty || tested == nil {
+					continue
+				}
+				// the tested string is an element of the match (the capture group)
+				if prm, isP := tested.(*ssa.Parameter); isP && hostSite != nil {
+					for i, hp := range host.Params {
+						if hp == prm && i < len(hostSite.Common().Args) {
+							tested = hostSite.Common().Args[i]
+						}
+					}
+				}
+				if _, p := pathOf(tested); !strings.Contains(p, "[]") {
+					continue
+				}
+				idx := 0
+				if cmp.Op == token.NEQ {
+					idx = 1
+				}
+				for _, u := range core.Referrers(cmp) {
+					if iff, ok := u.(*ssa.If); ok {
+						emptyEdges = append(emptyEdges, edge{iff.Block(), idx})
+					}
 				}
 			}
 		}
-	}
-	loopsPP := core.Loops(pp)
-	nSingle := 0
-	for _, ci := range core.Calls(pp) {
-		if core.BuiltinName(ci.Common()) != "append" {
-			continue
-		}
-		sl, isSl := ci.Common().Args[1].(*ssa.Slice)
-		if !isSl {
-			continue
-		}
-		if _, isA := sl.X.(*ssa.Alloc); !isA {
-			continue
-		}
-		depth := 0
-		for _, l := range loopsPP {
-			if l.Body[ci.Block()] {
-				depth++
+		loopsPP := core.Loops(host)
+		for _, ci := range core.Calls(host) {
+			if core.BuiltinName(ci.Common()) != "append" {
+				continue
 			}
+			sl, isSl := ci.Common().Args[1].(*ssa.Slice)
+			if !isSl {
+				continue
+			}
+			if _, isA := sl.X.(*ssa.Alloc); !isA {
+				continue
+			}
+			depth := baseDepth
+			for _, l := range loopsPP {
+				if l.Body[ci.Block()] {
+					depth++
+				}
+			}
+			if depth >= 2 {
+				continue // the positional fill loop
+			}
+			nSingle++
+			{
+				// the list never outgrows the protocol's 16-bit parameter count: a '?' is added only below the limit
+				l := core.NewLin(c.P, host, c.modSets(), c.summaries("C20.R2"))
+				R.Check(l.Prove(ci, l.LenOf(ci.Common().Args[0]), core.Zero, 65534), "C20.R2", "ParseParameters:unpositional-below-limit", c.at(ci), "the work and the result are bounded by the protocol's 65535-parameter limit for '?' markers too", "E-LIN: len(parameters) <= 65534 at the append", "the '?' branch appends without a limit: a query text with more than 65535 '?' markers returns a longer list, and ParameterDescription then announces int16(len) - a count that does not match the OIDs that follow")
+			}
+			R.Check(anyDominates(emptyEdges, ci.Block()), "C20.R3", "ParseParameters:unpositional-only-when-capture-empty", c.at(ci), "a marker adds one placeholder only when it is a '?' (empty position group); every $n marker, however large n, extends the list to min(n, 65535)", "the single append is dominated by the capture == \"\" edge", "the one-placeholder append is not guarded by an emptiness test of the position group: a $n marker can be counted as a '?' (e.g. when its number overflows the integer conversion)")
 		}
-		if depth >= 2 {
-			continue // the positional fill loop
-		}
-		nSingle++
-		{
-			// the list never outgrows the protocol's 16-bit parameter count: a '?' is added only below the limit
-			l := core.NewLin(c.P, pp, c.modSets(), c.summaries("C20.R2"))
-			R.Check(l.Prove(ci, l.LenOf(ci.Common().Args[0]), core.Zero, 65534), "C20.R2", "ParseParameters:unpositional-below-limit", c.at(ci), "the work and the result are bounded by the protocol's 65535-parameter limit for '?' markers too", "E-LIN: len(parameters) <= 65534 at the append", "the '?' branch appends without a limit: a query text with more than 65535 '?' markers returns a longer list, and ParameterDescription then announces int16(len) - a count that does not match the OIDs that follow")
-		}
-		R.Check(anyDominates(emptyEdges, ci.Block()), "C20.R3", "ParseParameters:unpositional-only-when-capture-empty", c.at(ci), "a marker adds one placeholder only when it is a '?' (empty position group); every $n marker, however large n, extends the list to min(n, 65535)", "the single append is dominated by the capture == \"\" edge", "the one-placeholder append is not guarded by an emptiness test of the position group: a $n marker can be counted as a '?' (e.g. when its number overflows the integer conversion)")
 	}
 	R.Floor("C20.R3", "un-positional append sites", nSingle, 1)
 	// the function returns the grown slice
